@@ -493,8 +493,15 @@ pub fn case_retry(c: &RetryCase) -> CaseOut {
         Plan::ForgedFirst { .. } => {
             labels.push("forged-first");
             nontrivial = retries.len() >= 2;
-            if followed.is_none() {
-                labels.push("genuine-retry-after-forged-one-not-followed");
+            // a Retry the client had to discard is without effect: the genuine one that arrives afterwards
+            // is still the first acceptable one and must be followed
+            // (unless the changed copy happens to be a Version Negotiation packet - version 0 -, which may
+            // end the attempt of a client that has accepted no server packet yet)
+            if followed.is_none() && retries.iter().any(|x| x.genuine && x.acceptable()) && w.conns[k].app.lost.is_empty() {
+                return CaseOut::fail(
+                    "c14/genuine-retry-after-forged-one-not-followed",
+                    format!("a Retry that had to be discarded arrived first; the genuine Retry that followed was acceptable (valid tag, no server packet processed yet) but the client ignored it: {retries:?}; plan {:?}", s.what),
+                );
             }
         }
         Plan::Second { kind, .. } => {
